@@ -826,6 +826,37 @@ def main(ctx):
                               events=[repr(e) for e in H_EVENTS],
                               key="fingerprint of (depth, result of a fixed probe match)"))
 
+    # ------------------------------------------- several live objects (process-wide state)
+    # up to 3 Matcher objects (different depth / different second set) alive in one process, match calls
+    # interleaved: the per-object map of the second set and the C++ index must not leak between objects
+    from mc.worlds import object_world
+    MK = {"d4/all": (4, "all"), "d8/dups": (8, "dups"), "d10/polar": (10, "polar"), "d8/all": (8, "all")}
+    MOPS = [("scrambled", 0.015, 2), ("polar", 1.5, 0), ("dups", 0.0, 0), ("seam", 0.5, 1)]
+
+    def m_new(kind):
+        depth, s2 = MK[kind]
+        ra2, dec2 = coords(subset(s2, gen))
+        return htm.Matcher(depth, ra2, dec2)
+
+    def m_do(M, kind, op):
+        s1, r, mm = op
+        ra1, dec1 = coords(subset(s1, gen))
+        return [np.asarray(a) for a in M.match(ra1, dec1, r, maxmatch=mm)]
+
+    def m_check(kind, op, res):
+        s1, r, mm = op
+        p1, p2 = subset(s1, gen), subset(MK[kind][1], gen)
+        bad = verify(tuple(res), Truth(p1, p2, np.full(len(p1), r)), mm)
+        if bad:
+            return bad[0][1]
+
+    def m_modules():
+        import esutil.htm.htm as hm
+        return [hm]
+
+    object_world(ctx, "several-matchers", list(MK), m_new, MOPS, m_do, m_modules, depth=ctx.pick(3, 4),
+                 check=m_check, nodedup_depth=ctx.pick(3, 4), state=lambda M: (M.get_depth(), getattr(M, "__dict__", {})))
+
 
 class _Fail(Exception):
     """a route misbehaved in a way that is itself a violation"""
